@@ -146,6 +146,50 @@ def precheck(root, report):
 
 
 def run_unit(name, scratch, support_dir, tier, seed, rlimit=30, extra_flags=()):
+    """splice + verify; when Verus rejects a call of a repository function that is not under contract (typically a helper an edit
+    introduced), that function is lifted bare (no contract: its callers know nothing about its result) and the unit is re-run"""
+    extra = []
+    for _round in range(4):
+        ur = _run_unit_once(name, scratch, support_dir, tier, seed, rlimit, extra_flags, extra)
+        new = []
+        for d in ur.errors:
+            m = re.search(r'cannot use function `([^`]+)` which is ignored', d.get('message', ''))
+            if m:
+                loc = _locate_fn(os.path.join(scratch, 'repo'), UNITS[name]['crate'], m.group(1))
+                if loc and loc not in [(a, b) for (a, b, _) in extra] and loc not in new: new.append(loc)
+        if not new: return ur
+        caller_props = sorted({p for f in (ur.report or {}).get('functions', []) for p in (f.get('props') or [])})
+        extra += [(a, b, caller_props) for (a, b) in new]
+        snapshot(scratch)
+    return ur
+
+
+def _locate_fn(root, crate, path):
+    """`crate::mod::..::[Type::]name` -> (relative file, vspec key) if such a fn exists in the sources"""
+    parts = path.split('::')
+    if parts[0] != crate: return None
+    parts = parts[1:]
+    import rustlex
+    for cut in (len(parts) - 1, len(parts) - 2):
+        if cut < 0: continue
+        mod, rest = parts[:cut], parts[cut:]
+        for rel in (os.path.join(crate, 'src', *mod) + '.rs', os.path.join(crate, 'src', *mod, 'mod.rs'), os.path.join(crate, 'src', 'lib.rs') if not mod else None):
+            if not rel or not os.path.exists(os.path.join(root, rel)): continue
+            try:
+                src = rustlex.Src(open(os.path.join(root, rel)).read())
+                items = rustlex.parse_items(src, 0, src.n())
+            except Exception:
+                continue
+            if len(rest) == 1:
+                if any(it.kind == 'fn' and it.name == rest[0] and not it.cfg_test for it in items): return (rel, rest[0])
+            else:
+                for it in items:
+                    if it.kind == 'impl' and it.impl_trait is None and it.type_name == rest[0] and any(c.kind == 'fn' and c.name == rest[1] for c in it.children):
+                        return (rel, '%s::%s' % (rest[0], rest[1]))
+    return None
+
+
+def _run_unit_once(name, scratch, support_dir, tier, seed, rlimit=30, extra_flags=(), extra_lifts=()):
     u = UNITS[name]
     root = os.path.join(scratch, 'repo')
     ur = UnitResult(); ur.name = name
@@ -153,7 +197,7 @@ def run_unit(name, scratch, support_dir, tier, seed, rlimit=30, extra_flags=()):
     pre_bad = None
     try:
         # precheck runs on the ORIGINAL sources of the files that will be lifted
-        ur.report = splicer.splice(root, specs, os.path.join(VERIF, 'contracts'), name)
+        ur.report = splicer.splice(root, specs, os.path.join(VERIF, 'contracts'), name, extra_lifts)
     except (splicer.SpliceError, splicer.vspec.VspecError) as e:
         raise Undecided('splice (%s): %s' % (name, e))
     except Exception as e:
